@@ -1,6 +1,7 @@
 import Proofs.AdjointAll
 import Proofs.PointwiseCalc
 import Proofs.Subgradient
+import Props.C01Formulas
 /-!
 # C01 — Backward of every tensor op yields the exact vector-Jacobian product
 
